@@ -112,74 +112,338 @@ Proof.
   rewrite W4, W3, W2, W1, W0. reflexivity.
 Qed.
 
+(* Task.write: the head *)
+Lemma Inv_write_header s s1 o1 :
+  write_header cap lower c r disc s = (s1, o1) -> Inv s ->
+  Inv s1 /\ (o1 = Ok tt -> t_wrote_header (fst s1) = true).
+Proof.
+  destruct s as [t ch]. unfold write_header. intros E I.
+  destruct (t_wrote_header t) eqn:Ew; cbn [negb] in E.
+  - inversion E; subst. split; auto.
+  - destruct I as [I1 _]. destruct (I1 Ew) as [Hcl Hnil]. cbn [fst snd] in *.
+    destruct (build_response_header cap lower c r t) as [t1 [rh|e]] eqn:Eb.
+    + assert (Ht1 : t1 = bh_prepare cap lower c r t) by (unfold build_response_header in Eb; inversion Eb; auto).
+      destruct (write_soon disc ch (WBytes rh)) as [ch1 [[]|e]] eqn:Ews.
+      * inversion E; subst s1 o1. split; [|reflexivity].
+        split; cbn [fst snd t_wrote_header set_wrote]; [discriminate|]. intros _.
+        assert (Hne : exists x b', rh = x :: b').
+        { unfold build_response_header, head_text in Eb. injection Eb as _ Hrh.
+          eapply encode_nonempty; eauto. }
+        destruct Hne as (x & b' & ->).
+        apply write_soon_ok_nonempty in Ews.
+        exists (x :: b'), []. rewrite Ews, Hnil. split; [reflexivity|]. exists t, t1. split; auto.
+      * inversion E; subst s1 o1. split; [|discriminate].
+        split; cbn [fst snd]; rewrite Ht1, bh_prepare_wrote, Ew; [intros _|discriminate].
+        split. apply bh_prepare_clean; auto.
+        apply write_soon_writes in Ews as [_ Hs]. rewrite (Hs e eq_refl). auto.
+    + inversion E; subst s1 o1. split; [|discriminate].
+      assert (Ht1 : t1 = bh_prepare cap lower c r t) by (unfold build_response_header in Eb; inversion Eb; auto).
+      split; cbn [fst snd]; rewrite Ht1, bh_prepare_wrote, Ew; [intros _|discriminate].
+      split; auto. apply bh_prepare_clean; auto.
+Qed.
+
+(* once the head is out, the writes only grow and the task's header state is irrelevant *)
+Lemma Inv_grow t1 ch1 t2 ch2 :
+  Inv (t1, ch1) -> t_wrote_header t1 = true -> t_wrote_header t2 = true ->
+  (exists pre, ch_writes ch2 = pre ++ ch_writes ch1) -> Inv (t2, ch2).
+Proof.
+  intros [_ I2] W1 W2 [pre Hp]. split; cbn [fst snd]; rewrite W2; [discriminate|]. intros _.
+  destruct (I2 W1) as (h & rest & Hr & Hok). cbn [snd] in Hr.
+  exists h, (pre ++ rest). rewrite Hp, Hr, app_assoc. auto.
+Qed.
+
+Lemma write_soon_grows ch it ch' o : write_soon disc ch it = (ch', o) ->
+  exists pre, ch_writes ch' = pre ++ ch_writes ch.
+Proof.
+  intro H. apply write_soon_writes in H as [[Hs|[Hs _]] _]; rewrite Hs; [exists []|eexists [_]]; reflexivity.
+Qed.
+
+Lemma write_body_frame s data s' o : write_body disc s data = (s', o) ->
+  t_wrote_header (fst s') = t_wrote_header (fst s)
+  /\ t_rh (fst s') = t_rh (fst s) /\ t_status (fst s') = t_status (fst s)
+  /\ (exists pre, ch_writes (snd s') = pre ++ ch_writes (snd s))
+  /\ (t_wrote_header (fst s) = false -> data = [] \/ True).
+Proof.
+  destruct s as [t ch]. unfold write_body.
+  destruct data as [|x data]; [intro H; inversion H; subst; cbn; repeat split; auto; exists []; auto|].
+  destruct (has_body t).
+  - destruct (t_chunked t).
+    + destruct (to_hex_upper _ ++ _) as [|y tw].
+      * intro H; inversion H; subst; cbn; repeat split; auto; exists []; auto.
+      * destruct (write_soon disc ch (WBytes (y :: tw))) as [ch2 o2] eqn:Ews.
+        intro H; inversion H; subst; cbn; repeat split; auto. eapply write_soon_grows; eauto.
+    + destruct (t_clen t) as [cl|].
+      * destruct (py_slice_to _ _) as [|y tw].
+        -- intro H; inversion H; subst; cbn; repeat split; auto; exists []; auto.
+        -- destruct (write_soon disc ch (WBytes (y :: tw))) as [ch2 o2] eqn:Ews.
+           intro H; inversion H; subst; cbn; repeat split; auto. eapply write_soon_grows; eauto.
+      * destruct (write_soon disc ch (WBytes (x :: data))) as [ch2 o2] eqn:Ews.
+        intro H; inversion H; subst; cbn; repeat split; auto. eapply write_soon_grows; eauto.
+  - intro H; inversion H; subst; cbn; repeat split; auto; exists []; auto.
+Qed.
+
 (* Task.write *)
 Lemma Inv_task_write s data s' o :
   task_write cap lower c r disc s data = (s', o) -> Inv s -> Inv s'.
 Proof.
-  destruct s as [t ch]. unfold task_write.
-  destruct (negb (t_complete t)); [intro H; inversion H; subst; auto|].
+  unfold task_write. destruct (negb (t_complete (fst s))); [intro H; inversion H; subst; auto|].
   intros H I.
-  (* the header part *)
-  assert (Hh : forall s1 o1,
-     (if negb (t_wrote_header t)
-      then match build_response_header cap lower c r t with
-           | (t1, Exn e) => ((t1, ch), Exn e)
-           | (t1, Ok rh) => match write_soon disc ch (WBytes rh) with
-                            | (ch1, Exn e) => ((t1, ch1), Exn e)
-                            | (ch1, Ok _) => ((set_wrote true t1, ch1), Ok tt)
-                            end
-           end
-      else ((t, ch), Ok tt)) = (s1, o1) ->
-     Inv s1 /\ (o1 = Ok tt -> t_wrote_header (fst s1) = true)).
-  { intros s1 o1 E. destruct (t_wrote_header t) eqn:Ew; cbn [negb] in E.
-    - inversion E; subst. split; auto.
-    - destruct I as [I1 _]. destruct (I1 Ew) as [Hcl Hnil]. cbn [fst snd] in *.
-      destruct (build_response_header cap lower c r t) as [t1 [rh|e]] eqn:Eb.
-      + assert (Ht1 : t1 = bh_prepare cap lower c r t) by (unfold build_response_header in Eb; inversion Eb; auto).
-        destruct (write_soon disc ch (WBytes rh)) as [ch1 [[]|e]] eqn:Ews.
-        * inversion E; subst s1 o1. split; [|reflexivity].
-          split; cbn [fst snd t_wrote_header set_wrote]; [discriminate|]. intros _.
-          assert (Hne : exists x b', rh = x :: b').
-          { unfold build_response_header, head_text in Eb. injection Eb as _ Hrh.
-            eapply encode_nonempty; eauto. }
-          destruct Hne as (x & b' & ->).
-          apply write_soon_ok_nonempty in Ews.
-          exists (x :: b'), []. rewrite Ews, Hnil. split; [reflexivity|]. exists t, t1. split; auto.
-        * inversion E; subst s1 o1. split; [|discriminate].
-          split; cbn [fst snd]; rewrite Ht1, bh_prepare_wrote, Ew; [intros _|discriminate].
-          split. apply bh_prepare_clean; auto.
-          apply write_soon_writes in Ews as [_ Hs]. rewrite (Hs e eq_refl). auto.
-      + inversion E; subst s1 o1. split; [|discriminate].
-        assert (Ht1 : t1 = bh_prepare cap lower c r t) by (unfold build_response_header in Eb; inversion Eb; auto).
-        split; cbn [fst snd]; rewrite Ht1, bh_prepare_wrote, Ew; [intros _|discriminate].
-        split; auto. apply bh_prepare_clean; auto. }
-  destruct (if negb (t_wrote_header t) then _ else _) as [s1 [[]|e]] eqn:E.
-  - destruct (Hh s1 (Ok tt) E) as [I1 W1]. specialize (W1 eq_refl). destruct s1 as [t1 ch1]. cbn [fst] in W1.
-    (* the body part: wrote_header is true, writes only grow *)
-    assert (Hgrow : forall t2 ch2, t_wrote_header t2 = true ->
-                    (exists pre, ch_writes ch2 = pre ++ ch_writes ch1) -> Inv (t2, ch2)).
-    { intros t2 ch2 W2 [pre Hp]. split; cbn [fst snd]; rewrite W2; [discriminate|]. intros _.
-      destruct I1 as [_ I2]. destruct (I2 W1) as (h & rest & Hr & Hok). cbn [snd] in Hr.
-      exists h, (pre ++ rest). rewrite Hp, Hr, app_assoc. auto. }
-    destruct data as [|x data]; [inversion H; subst; auto|].
-    destruct (has_body t1).
-    + destruct (t_chunked t1).
-      * destruct (to_hex_upper _ ++ _) as [|y tw] eqn:Et.
-        -- inversion H; subst; auto.
-        -- destruct (write_soon disc ch1 (WBytes (y :: tw))) as [ch2 o2] eqn:Ews.
-           inversion H; subst. apply Hgrow; auto.
-           apply write_soon_writes in Ews as [[Hs|[Hs _]] _]; rewrite Hs; [exists []|eexists [_]]; reflexivity.
-      * destruct (t_clen t1) as [cl|].
-        -- destruct (py_slice_to _ _) as [|y tw] eqn:Et.
-           ++ inversion H; subst. apply Hgrow; auto. exists []. reflexivity.
-           ++ destruct (write_soon disc ch1 (WBytes (y :: tw))) as [ch2 o2] eqn:Ews.
-              inversion H; subst. apply Hgrow; auto.
-              apply write_soon_writes in Ews as [[Hs|[Hs _]] _]; rewrite Hs; [exists []|eexists [_]]; reflexivity.
-        -- destruct (write_soon disc ch1 (WBytes (x :: data))) as [ch2 o2] eqn:Ews.
-           inversion H; subst. apply Hgrow; auto.
-           apply write_soon_writes in Ews as [[Hs|[Hs _]] _]; rewrite Hs; [exists []|eexists [_]]; reflexivity.
-    + inversion H; subst. apply Hgrow; auto. exists []. reflexivity.
-  - destruct (Hh s1 (Exn e) E) as [I1 _]. inversion H; subst. auto.
+  destruct (write_header cap lower c r disc s) as [s1 [[]|e]] eqn:E.
+  - destruct (Inv_write_header _ _ _ E I) as [I1 W1]. specialize (W1 eq_refl).
+    destruct (write_body_frame _ _ _ _ H) as (F1 & _ & _ & F4 & _).
+    destruct s1 as [t1 ch1], s' as [t2 ch2]. cbn [fst snd] in *.
+    eapply Inv_grow; eauto; congruence.
+  - destruct (Inv_write_header _ _ _ E I) as [I1 _]. inversion H; subst. auto.
+Qed.
+
+
+Lemma mutate_nth_clean i isv v l : clean v -> Forall clean_field l -> Forall clean_field (mutate_nth i isv v l).
+Proof.
+  intros Hv H. revert i. induction H as [|h l [H1 H2] Hl IH]; intro i; [destruct i; cbn; constructor|].
+  destruct i; cbn [mutate_nth].
+  - constructor; auto. destruct isv; split; auto.
+  - constructor; auto. split; auto.
+Qed.
+
+(* chunked_response is only ever set while the head is being built: along
+   every path without an exception it implies wrote_header *)
+Definition Chk (s : st) : Prop := t_chunked (fst s) = true -> t_wrote_header (fst s) = true.
+Definition Good (s : st) : Prop := Inv s /\ Chk s.
+(* what every step guarantees *)
+Definition Post (s' : st) (o : outcome unit) : Prop := Inv s' /\ (o = Ok tt -> Chk s').
+
+Lemma Post_Good s u : Post s (Ok u) -> Good s.
+Proof. destruct u. intros [H1 H2]. split; auto. Qed.
+
+Lemma write_body_chunked s data s' o : write_body disc s data = (s', o) ->
+  t_chunked (fst s') = t_chunked (fst s).
+Proof.
+  destruct s as [t ch]. unfold write_body.
+  destruct data as [|x data]; [intro H; inversion H; subst; auto|].
+  destruct (has_body t).
+  - destruct (t_chunked t) eqn:Ec.
+    + destruct (to_hex_upper _ ++ _) as [|y tw].
+      * intro H; inversion H; subst; auto.
+      * destruct (write_soon disc ch (WBytes (y :: tw))) as [ch2 o2].
+        intro H; inversion H; subst; auto.
+    + destruct (t_clen t) as [cl|].
+      * destruct (py_slice_to _ _) as [|y tw].
+        -- intro H; inversion H; subst; auto.
+        -- destruct (write_soon disc ch (WBytes (y :: tw))) as [ch2 o2].
+           intro H; inversion H; subst; auto.
+      * destruct (write_soon disc ch (WBytes (x :: data))) as [ch2 o2].
+        intro H; inversion H; subst; auto.
+  - intro H; inversion H; subst; auto.
+Qed.
+
+Lemma Post_task_write s data s' o :
+  task_write cap lower c r disc s data = (s', o) -> Good s -> Post s' o.
+Proof.
+  intros H [I K]. split; [eapply Inv_task_write; eauto|]. intros ->.
+  unfold task_write in H. destruct (negb (t_complete (fst s))); [discriminate|].
+  destruct (write_header cap lower c r disc s) as [s1 [[]|e]] eqn:E; [|discriminate].
+  destruct (Inv_write_header _ _ _ E I) as [_ W1]. specialize (W1 eq_refl).
+  destruct (write_body_frame _ _ _ _ H) as (F1 & _). intros _. congruence.
+Qed.
+
+Lemma Post_run_action s a s' o : act_ok a ->
+  run_action cap lower c r disc s a = (s', o) -> Good s -> Post s' o.
+Proof.
+  intros Ha H [I K]. destruct a as [status headers exc|data|e|i isv v]; cbn [run_action] in H.
+  - pose proof (start_response_frame lower (fst s) status headers exc) as F. cbn zeta in F.
+    pose proof (start_response_clean lower (fst s) status headers exc) as C.
+    destruct (start_response lower (fst s) status headers exc) as [t o1]. inversion H; subst. clear H.
+    cbn [fst] in *. destruct F as (F1 & _ & F3 & _). destruct s as [t0 ch]. cbn [fst snd] in *.
+    split. eapply Inv_task_only; eauto. intros _. unfold Chk in *. cbn [fst] in *.
+    intro Hx. rewrite F1. apply K. rewrite <- F3. exact Hx.
+  - eapply Post_task_write; eauto. split; auto.
+  - inversion H; subst. split; auto; discriminate.
+  - inversion H; subst. clear H. destruct s as [t ch]. cbn [fst snd]. split.
+    + apply (Inv_task_only t _ ch); [reflexivity| |exact I]. intros [C1 C2]. split; auto. cbn [t_rh set_rh].
+      apply mutate_nth_clean; auto.
+    + intros _. exact K.
+Qed.
+
+Lemma Post_run_actions l : forall s s' o, Forall act_ok l ->
+  run_actions cap lower c r disc s l = (s', o) -> Good s -> Post s' o.
+Proof.
+  induction l as [|a l IH]; intros s s' o Hl H G; cbn [run_actions] in H.
+  - inversion H; subst. destruct G. split; auto.
+  - inversion Hl; subst.
+    destruct (run_action cap lower c r disc s a) as [s1 [u|e]] eqn:E.
+    + eapply IH; eauto. eapply Post_Good. eapply Post_run_action; eauto.
+    + inversion H; subst. eapply Post_run_action; eauto.
+Qed.
+
+Lemma Good_set_clen z t ch : Good (t, ch) -> Good (set_clen z t, ch).
+Proof. intros [I K]. split; auto. Qed.
+
+Lemma Post_iterate steps : forall is_file len1 first s s' o, Forall step_ok steps ->
+  iterate cap lower c r disc is_file len1 first s steps = (s', o) -> Good s -> Post s' o.
+Proof.
+  induction steps as [|sp steps IH]; intros is_file len1 first s s' o Hs H G; cbn [iterate] in H.
+  - inversion H; subst. destruct G. split; auto.
+  - inversion Hs as [|? ? Hsp Hrest]; subst.
+    destruct (run_actions cap lower c r disc s (s_acts sp)) as [s1 [u|e]] eqn:E;
+      [|inversion H; subst; eapply Post_run_actions; eauto].
+    assert (G1 : Good s1) by (eapply Post_Good; eapply Post_run_actions; eauto).
+    destruct (s_res sp) as [chunk|e]; [|inversion H; subst; destruct G1; split; auto; discriminate].
+    destruct (is_file && _); [inversion H; subst; destruct G1; split; auto|].
+    destruct s1 as [t ch].
+    set (t1 := if first then _ else t) in H.
+    assert (G2 : Good (t1, ch)).
+    { subst t1. destruct first; auto. destruct (t_clen t); auto. destruct len1; auto; apply Good_set_clen; auto. }
+    destruct chunk as [|x chunk].
+    + eapply IH; eauto.
+    + destruct (task_write cap lower c r disc (t1, ch) (x :: chunk)) as [s2 [u2|e]] eqn:Ew.
+      * eapply IH; eauto. eapply Post_Good. eapply Post_task_write; eauto.
+      * inversion H; subst. eapply Post_task_write; eauto.
+Qed.
+
+Lemma Post_task_finish s s' o : task_finish cap lower c r disc s = (s', o) -> Good s -> Post s' o.
+Proof.
+  unfold task_finish. intros H G.
+  set (r1 := if negb (t_wrote_header (fst s)) then _ else _) in H.
+  assert (P1 : Post (fst r1) (snd r1)).
+  { subst r1. destruct (negb (t_wrote_header (fst s))).
+    - destruct (task_write cap lower c r disc s []) as [s1 o1] eqn:E. eapply Post_task_write; eauto.
+    - destruct G. split; auto. }
+  destruct r1 as [[t ch] [u|e]]; cbn [fst snd] in P1; [|inversion H; subst; destruct P1 as [PA PB]; split; [exact PA|intro X; discriminate X]].
+  apply Post_Good in P1. destruct P1 as [I1 K1].
+  cbn [fst] in *.
+  destruct (t_chunked t) eqn:Ec; [|inversion H; subst; split; auto; intros _; unfold Chk; cbn; congruence].
+  destruct (write_soon disc ch (WBytes chunk_terminator)) as [ch1 o1] eqn:Ews. inversion H; subst. clear H.
+  specialize (K1 Ec). cbn [fst] in K1. split.
+  - eapply Inv_grow; eauto. eapply write_soon_grows; eauto.
+  - intros _ _. exact K1.
+Qed.
+
+
+Lemma Good_task_only t t' ch :
+  t_wrote_header t' = t_wrote_header t -> t_chunked t' = t_chunked t ->
+  (task_clean t -> task_clean t') -> Good (t, ch) -> Good (t', ch).
+Proof.
+  intros Hw Hk Hcl [I K]. split. eapply Inv_task_only; eauto.
+  unfold Chk in *. cbn [fst] in *. intro X. rewrite Hw. apply K. rewrite <- Hk. exact X.
+Qed.
+
+Lemma scof_chunked t : t_chunked (set_close_on_finish cap lower t) = t_chunked t.
+Proof.
+  unfold set_close_on_finish. destruct (negb (t_wrote_header t)); [|reflexivity].
+  destruct (fold_left _ (t_rh t) None); reflexivity.
+Qed.
+
+Lemma Good_scof t ch : Good (t, ch) -> Good (set_close_on_finish cap lower t, ch).
+Proof. apply Good_task_only. apply scof_wrote. apply scof_chunked. apply scof_clean. Qed.
+
+Lemma Good_remove_cl t ch : Good (t, ch) -> Good (remove_content_length_header lower t, ch).
+Proof.
+  apply Good_task_only; try reflexivity. intros [H1 H2]. split; auto.
+  unfold remove_content_length_header. cbn [t_rh set_rh].
+  apply Forall_forall. intros x Hx. apply filter_In in Hx as [Hx _]. rewrite Forall_forall in H2. auto.
+Qed.
+
+Lemma Post_execute_body s a s' o cc : Forall step_ok (a_steps a) ->
+  execute_body cap lower c r disc s a = (s', o, cc) -> Good s -> Post s' o.
+Proof.
+  intros Hs H G. unfold execute_body in H.
+  set (ho := match a_kind a with KFile _ => _ | _ => None end) in H.
+  assert (Hho : match ho with Some (s1, o1, _) => Post s1 o1 | None => True end).
+  { subst ho. destruct (a_kind a) as [n| |seekable]; auto.
+    destruct s as [t ch].
+    set (size := if seekable then _ else 0%Z).
+    destruct (size =? 0)%Z; auto.
+    set (t1 := if match t_clen t with Some n => negb (n =? size)%Z | None => true end then _ else t).
+    assert (G1 : Good (t1, ch)).
+    { subst t1. destruct (match t_clen t with Some n => negb (n =? size)%Z | None => true end); auto.
+      apply Good_set_clen. destruct (t_clen t); auto. apply Good_remove_cl; auto. }
+    destruct (task_write cap lower c r disc (t1, ch) []) as [s1 [u|e]] eqn:Ew.
+    - pose proof (Post_task_write _ _ _ _ Ew G1) as P1. apply Post_Good in P1.
+      destruct s1 as [t2 ch2].
+      destruct (write_soon disc ch2 _) as [ch3 [u3|e]] eqn:Ews.
+      + destruct P1 as [I1 K1]. split.
+        * (* after write(b"") succeeded the head is out *)
+          unfold task_write in Ew. destruct (negb (t_complete (fst (t1, ch)))); [discriminate|].
+          destruct (write_header cap lower c r disc (t1, ch)) as [s2 [[]|e2]] eqn:E; [|discriminate].
+          destruct (Inv_write_header _ _ _ E (proj1 G1)) as [_ W1]. specialize (W1 eq_refl).
+          destruct (write_body_frame _ _ _ _ Ew) as (F1 & _). cbn [fst] in F1.
+          eapply Inv_grow; eauto. congruence. congruence. eapply write_soon_grows; eauto.
+        * intros _. exact K1.
+      + destruct P1 as [I1 K1]. split; [|intro X; discriminate X].
+        apply write_soon_writes in Ews as [_ Hx]. specialize (Hx e eq_refl).
+        destruct I1 as [A B]. split; cbn [fst snd] in *; rewrite Hx; auto.
+    - pose proof (Post_task_write _ _ _ _ Ew G1) as P1. exact P1. }
+  destruct ho as [[[s1 o1] c1]|].
+  - inversion H; subst. exact Hho.
+  - destruct (iterate cap lower c r disc _ _ true s (a_steps a)) as [s1 [u|e]] eqn:Ei.
+    + pose proof (Post_iterate _ _ _ _ _ _ _ Hs Ei G) as P1. apply Post_Good in P1.
+      destruct s1 as [t ch]. inversion H; subst. clear H.
+      assert (G2 : Good (match t_clen t with
+                         | Some cl => if negb (t_cbw t =? cl)%Z && negb (r_head r) then set_close_on_finish cap lower t else t
+                         | None => t end, ch)).
+      { destruct (t_clen t); auto. destruct (_ && _); auto. apply Good_scof; auto. }
+      destruct G2. split; auto.
+    + inversion H; subst. eapply Post_iterate; eauto.
+Qed.
+
+Lemma Post_wsgi_execute s a : app_ok a -> Good s ->
+  let x := wsgi_execute cap lower c r disc s a in Post (x_st x) (x_out x).
+Proof.
+  intros [Ha Hs] G. cbn zeta. unfold wsgi_execute.
+  destruct (run_actions cap lower c r disc s (a_call a)) as [s1 [u|e]] eqn:E.
+  - pose proof (Post_run_actions _ _ _ _ Ha E G) as P1. apply Post_Good in P1.
+    destruct (execute_body cap lower c r disc s1 a) as [[s2 o] cc] eqn:Eb.
+    pose proof (Post_execute_body _ _ _ _ _ Hs Eb P1) as P2.
+    destruct (cc && a_has_close a); [destruct (a_close_exn a)|]; cbn [x_st x_out]; auto.
+    destruct P2. split; auto. intro X; discriminate X.
+  - cbn [x_st x_out]. eapply Post_run_actions; eauto.
+Qed.
+
+Definition err_clean (e : (str * str) * str) : Prop := clean (fst (fst e)) /\ clean (snd (fst e)).
+
+Lemma Post_error_execute s e : err_clean e -> Good s ->
+  let x := error_execute cap lower c r disc s e in Post (fst x) (snd x).
+Proof.
+  intros [E1 E2] G. cbn zeta. unfold error_execute. destruct e as [[code reason] body]. destruct s as [t ch].
+  cbn [fst snd] in E1, E2.
+  match goal with |- context [task_write cap lower c r disc ?s1 ?d] =>
+    destruct (task_write cap lower c r disc s1 d) as [s2 o2] eqn:Ew;
+    assert (G1 : Good s1) end.
+  2: { cbn [fst snd]. eapply Post_task_write; eauto. }
+  apply Good_set_clen. apply Good_scof.
+  revert G. apply Good_task_only; try reflexivity.
+  intros [H1 H2]. split; cbn [t_status t_rh set_rh set_status].
+  - apply clean_app. split; auto. apply clean_app. split; auto. reflexivity.
+  - apply Forall_app. split; auto. constructor; [|constructor]. split; reflexivity.
+Qed.
+
+Lemma Post_task_run s job :
+  match job with inl a => app_ok a | inr e => err_clean e end -> Good s ->
+  let x := task_run cap lower c r disc s job in Post (x_st x) (x_out x).
+Proof.
+  intros Hj G. cbn zeta. unfold task_run.
+  set (x := match job with inl a => _ | inr e => _ end).
+  assert (P1 : Post (x_st x) (x_out x)).
+  { subst x. destruct job as [a|e].
+    - apply Post_wsgi_execute; auto.
+    - pose proof (Post_error_execute s e Hj G) as P. cbn zeta in P.
+      destruct (error_execute cap lower c r disc s e). exact P. }
+  destruct (x_out x) as [u|e] eqn:Eo; [|rewrite Eo; exact P1].
+  apply Post_Good in P1.
+  destruct (task_finish cap lower c r disc (x_st x)) as [s2 o2] eqn:Ef. cbn [x_st x_out].
+  eapply Post_task_finish; eauto.
+Qed.
+
+(* Task.service keeps the channel part; it can only set close_on_finish *)
+Lemma Inv_task_service s job :
+  match job with inl a => app_ok a | inr e => err_clean e end -> Good s ->
+  Inv (x_st (task_service cap lower c r disc s job)).
+Proof.
+  intros Hj G. unfold task_service.
+  pose proof (Post_task_run s job Hj G) as [I _]. cbn zeta in I.
+  destruct (x_out (task_run cap lower c r disc s job)) as [u|e]; auto.
+  destruct (is_OSError e); auto. cbn [x_st].
+  destruct (x_st (task_run cap lower c r disc s job)) as [t ch]. exact I.
 Qed.
 
 End Run.
